@@ -55,6 +55,8 @@ REQUIRED_COUNTERS = [
     "weights_vector_compared", "weights_files_compared", "multi_readout_compared", "single_readout_compared",
     "targets_2_or_more_compared", "single_parameter_calibrations", "result_type_image_compared",
     "result_type_signal_compared", "result_type_pixel_compared",
+    "stochastic_pipeline_2_or_more_targets_compared", "noise_references_resimulated",
+    "algo_sade_finished", "algo_sga_finished", "algo_nlopt_finished", "monotone_pairs_checked_nlopt",
 ]
 TIMEOUT = {"quick": 900, "thorough": 5400}
 LEVEL_TEXT = ("Exploration by runtime monitoring: generated calibration set-ups are evaluated by the real fitting problem "
@@ -77,32 +79,46 @@ OPEN_FINDINGS: dict[str, str] = {}
 FUNCS = ("sum_of_abs_residuals", "sum_of_squared_residuals", "reduced_chi_squared")
 BUCKETS = ("pixel", "signal", "image")
 VALID_CLASSES = ("equal", "shifted")
-INVALID_CLASSES = ("unequal", "oob_target", "oob_result", "time_unequal", "time_oob")
+INVALID_CLASSES = ("unequal", "oob_target", "oob_both", "oob_result", "time_unequal", "time_oob")
+# NLopt solvers that need no gradient and keep to the box (the others are refused by pygmo for this problem or
+# leave the box: property C10)
+NLOPT_SOLVERS = ("neldermead", "sbplx", "bobyqa", "newuoa_bound", "praxis")
 
 LOG: list = []
 _LOCK = threading.Lock()
 
 
 # =============================================================================== probe (M1)
-def closed_form(shape, p, q, k, t) -> dict:
-    """The three buckets as closed-form functions of (p, q0, q1), input argument k and time t."""
+def closed_form(shape, p, q, k, t, extra=None) -> dict:
+    """The three buckets as closed-form functions of (p, q0, q1), input argument k and time t.
+
+    `extra` (array of `shape` or None) is the additive noise term of a stochastic probe."""
     yy, xx = np.indices(shape).astype(float)
     v = (float(p) * (1.0 + 0.5 * yy + 0.25 * xx)
          + float(q[0]) * (0.125 * (yy * xx + 1.0))
          + float(q[1]) * (0.5 * (1.0 + (3.0 * yy + 5.0 * xx) % 7.0))
          + float(k) * (1.0 + (2.0 * yy + xx) % 5.0)
          + float(t) * (0.25 * (xx + 1.0) + 0.125 * yy))
+    if extra is not None:
+        v = v + np.asarray(extra, dtype=float)
     return {"pixel": v, "signal": 0.5 * v - 2.0,
             "image": np.floor(np.minimum(np.abs(v) * 3.0, 4.0e9)).astype(np.uint32)}
 
 
-def probe(detector, p=1.0, q=(1.0, 1.0), k=0.0):
-    """Probe model: log the call, write the closed form into pixel, signal and image."""
+def probe(detector, p=1.0, q=(1.0, 1.0), k=0.0, noise=0.0):
+    """Probe model: log the call, write the closed form into pixel, signal and image.
+
+    With noise > 0 the probe is a stochastic model of the usual pyxel kind: it draws from NumPy's global
+    generator (the one the declared pipeline seed controls) and adds noise * N(0, 1) to every cell."""
     qq = [float(x) for x in q]
     t = float(detector.time)
+    shape = detector.geometry.shape
+    extra = None
+    if noise:
+        extra = float(noise) * np.random.standard_normal(shape)
     with _LOCK:
-        LOG.append((float(p), qq[0], qq[1], float(k), t))
-    out = closed_form(detector.geometry.shape, p, qq, k, t)
+        LOG.append((float(p), qq[0], qq[1], float(k), t, extra))
+    out = closed_form(shape, p, qq, k, t, extra)
     detector.pixel.array = out["pixel"]
     detector.signal.array = out["signal"]
     detector.image.array = out["image"]
@@ -116,6 +132,11 @@ def log_reset() -> None:
 def log_len() -> int:
     with _LOCK:
         return len(LOG)
+
+
+def log_snapshot() -> list:
+    with _LOCK:
+        return list(LOG)
 
 
 # =============================================================================== oracle (M8, no pyxel)
@@ -133,9 +154,11 @@ def oracle_split(layout: list, vec, from_decision: bool) -> tuple:
     return vals["p"], vals["q"]
 
 
-def oracle_sim(case: dict, p, q, k) -> dict:
-    """bucket -> array (time, y, x) of one processor."""
-    per_t = [closed_form((case["rows"], case["cols"]), p, q, k, t) for t in case["times"]]
+def oracle_sim(case: dict, p, q, k, noise=None) -> dict:
+    """bucket -> array (time, y, x) of one processor; `noise` = per readout time the additive term that a
+    re-simulation with the declared pipeline seed draws (None: deterministic probe)."""
+    per_t = [closed_form((case["rows"], case["cols"]), p, q, k, t, None if noise is None else noise[j])
+             for j, t in enumerate(case["times"])]
     return {b: np.array([c[b] for c in per_t]) for b in BUCKETS}
 
 
@@ -167,7 +190,7 @@ def oracle_fitness(case: dict, data: dict, p, q, weighted: bool = True) -> float
     for i in range(case["ntar"]):
         pp = case["p0"] if p is None else p[0]
         qq = case["q0"] if q is None else q
-        sim = region(oracle_sim(case, pp, qq, case["ks"][i])[rt], six(case["rfr"]))
+        sim = region(oracle_sim(case, pp, qq, case["ks"][i], data.get("noise"))[rt], six(case["rfr"]))
         tgt = region(data["targets"][i], six(case["tfr"]))
         w = 1.0
         if weighted and case["wk"] == "vector":
@@ -238,6 +261,27 @@ def gen_ranges(rng, cls: str, case: dict) -> None:
             olo, ohi = 2 * (1 - axis), 2 * (1 - axis) + 1
             osize = TC if axis == 0 else TR
             t[olo], t[ohi] = _span(rng, osize, r[ohi] - r[olo])
+    elif cls == "oob_both":
+        # the target range exceeds the target AND the result range exceeds the detector by the same amount:
+        # equal declared extents, and slicing clips both regions to the same (smaller) extent
+        axis = rng.choice([0, 1])
+        size, tsize = (R, TR) if axis == 0 else (C, TC)
+        lo, hi = 2 * axis, 2 * axis + 1
+        d = rng.randint(1, 3)
+        ext = rng.randint(d + 1, d + min(size, tsize))   # at least one row/column is really selected on both sides
+        r[lo], r[hi] = size + d - ext, size + d
+        t[lo], t[hi] = tsize + d - ext, tsize + d
+        if rng.random() < 0.3:                           # the other axis exceeds as well
+            olo, ohi = 2 * (1 - axis), 2 * (1 - axis) + 1
+            osize, otsize = (C, TC) if axis == 0 else (R, TR)
+            d2 = rng.randint(1, 2)
+            ext2 = rng.randint(d2 + 1, d2 + min(osize, otsize))
+            r[olo], r[ohi] = osize + d2 - ext2, osize + d2
+            t[olo], t[ohi] = otsize + d2 - ext2, otsize + d2
+        elif rng.random() < 0.5:                         # ... or is shifted
+            olo, ohi = 2 * (1 - axis), 2 * (1 - axis) + 1
+            otsize = TC if axis == 0 else TR
+            t[olo], t[ohi] = _span(rng, otsize, r[ohi] - r[olo])
     elif cls == "oob_result":
         axis = rng.choice([0, 1])
         size, tsize = (R, TR) if axis == 0 else (C, TC)
@@ -348,9 +392,9 @@ def gen_case(rng, kind: str, g: int) -> dict:
         cls = ["equal", "shifted", "shifted", "shifted", "invalid"][g % 5]
     else:
         cls = ["equal", "shifted", "shifted", "unequal", "oob_target", "oob_result", "shifted", "unequal",
-               "time", "absent", "shifted", "oob_target"][g % 12]
+               "time", "absent", "shifted", "oob_both"][g % 12]
     if cls == "invalid":
-        cls = rng.choice(["unequal", "oob_target", "oob_result", "time"])
+        cls = rng.choice(["unequal", "oob_target", "oob_both", "oob_result", "time"])
     if cls == "time":
         cls = rng.choice(["time_unequal", "time_oob"]) if multi else rng.choice(["unequal", "oob_target"])
     if cls == "time_oob" and case["tr_len"] == 4 and len(case["times"]) < 2:
@@ -389,14 +433,34 @@ def gen_case(rng, kind: str, g: int) -> dict:
     case["dseed"] = rng.randint(0, 2 ** 31)
     case["delim"] = rng.choice([" ", "\t", ",", ";"])
     if kind == "calib":
-        algo = "sga" if rng.random() < 0.2 else "sade"
-        case["algo"] = {"type": algo, "generations": rng.randint(1, 2), "population_size": rng.randint(7, 8)}
+        case["algo"] = gen_algo(rng, sum(2 if par["name"] == "q" else 1 for par in case["layout"]))
         case["islands"] = 1 + (g % 2)
-        case["evolutions"] = rng.randint(2, 3)
+        case["evolutions"] = rng.randint(2, 3) if case["algo"]["type"] != "nlopt" else rng.randint(2, 5)
         case["pygmo_seed"] = rng.randint(0, 100000)
         case["best"] = rng.choice([None, None, 2, 3])
         case["topology"] = rng.choice(["unconnected", "ring", "fully_connected"])
+    # ---- stochastic pipeline: the probe draws from the generator that the declared pipeline seed controls
+    case["noise"] = rng.choice([0.5, 2.0, 6.0]) if rng.random() < 0.35 else 0.0
+    case["pseed"] = rng.randint(0, 2 ** 31 - 1) if (case["noise"] or rng.random() < 0.15) else None
     return case
+
+
+def gen_algo(rng, dim: int) -> dict:
+    """One of the three algorithm families with randomised options (tiny budgets: the fitness bookkeeping and the
+    champion reporting are observed, not the convergence)."""
+    u = rng.random()
+    if u < 0.45:
+        return {"type": "sade", "generations": rng.randint(1, 2), "population_size": rng.randint(7, 8),
+                "variant": rng.choice([2, 2, rng.randint(1, 18)]), "variant_adptv": rng.randint(1, 2),
+                "memory": rng.random() < 0.3}
+    if u < 0.65:
+        return {"type": "sga", "generations": rng.randint(1, 2), "population_size": rng.randint(7, 8)}
+    # a local optimiser applied to one individual of the population (selection), the result re-inserted
+    # (replacement): every combination of best / worst / random is a documented configuration
+    return {"type": "nlopt", "generations": 1, "population_size": rng.randint(2, 6),
+            "nlopt_solver": rng.choice(NLOPT_SOLVERS), "maxeval": rng.randint(2 * dim + 3, 2 * dim + 12),
+            "xtol_rel": 1e-8, "nlopt_selection": rng.choice(["best", "worst", "random"]),
+            "replacement": rng.choice(["best", "worst", "random"])}
 
 
 def is_shifted(case: dict) -> bool:
@@ -484,12 +548,47 @@ def make_objects(case: dict, data: dict):
         result_fit_range=tuple(case["rfr"]) if case["rfr"] is not None else None,
         target_fit_range=tuple(case["tfr"]) if case["tfr"] is not None else None,
         result_input_arguments=[ParameterValues(key=pre + "k", values=list(case["ks"]))],
+        pipeline_seed=case["pseed"],
         **kwargs,
     )
+    detector, pipeline = make_detector_pipeline(case)
+    return cal, detector, pipeline
+
+
+def make_detector_pipeline(case: dict):
     detector = build.make_detector(build.default_detector_spec(case["detector"], case["rows"], case["cols"]))
-    pspec = {group: [{"name": "cal", "func": "vf.checks.c11.probe",
-                      "arguments": {"p": case["p0"], "q": list(case["q0"]), "k": case["k0"]}}]}
-    return cal, detector, build.make_pipeline(pspec)
+    pspec = {case["group"]: [{"name": "cal", "func": "vf.checks.c11.probe",
+                              "arguments": {"p": case["p0"], "q": list(case["q0"]), "k": case["k0"],
+                                            "noise": case["noise"]}}]}
+    return detector, build.make_pipeline(pspec)
+
+
+def resimulated_noise(rec, case: dict):
+    """The additive term of every readout that a re-simulation with the declared pipeline seed draws, observed by
+    running the same pipeline once in exposure mode with that seed (the term does not depend on p, q, k).
+    None for a deterministic probe; False when the reference could not be obtained (nothing is judged then)."""
+    if not case["noise"]:
+        return None
+    import pyxel
+    from pyxel.exposure import Exposure, Readout
+
+    try:
+        detector, pipeline = make_detector_pipeline(case)
+        readout = Readout(times=list(case["times"])) if case["multi"] else Readout()
+        log_reset()
+        pyxel.run_mode(mode=Exposure(readout=readout, pipeline_seed=case["pseed"]), detector=detector, pipeline=pipeline)
+        entries = log_snapshot()
+    except Exception as e:  # noqa: BLE001
+        rec.count("noise_reference_failed")
+        rec.observe("noise_reference_exception", short_exc(e))
+        return False
+    finally:
+        log_reset()
+    if len(entries) != len(case["times"]) or [e[4] for e in entries] != [float(t) for t in case["times"]]:
+        rec.count("noise_reference_failed")
+        return False
+    rec.count("noise_references_resimulated")
+    return [e[5] for e in entries]
 
 
 def make_problem(cal, detector, pipeline, inherited: bool):
@@ -549,6 +648,8 @@ def invalid_key(case: dict) -> str:
         return "C11:ranges:multi-readout:time-out-of-bounds"
     if cls == "oob_target":
         return f"C11:ranges:target-out-of-bounds:{ro_name(case)}"
+    if cls == "oob_both":
+        return f"C11:ranges:target-and-result-out-of-bounds:{ro_name(case)}"
     return f"C11:ranges:unequal-extent:{ro_name(case)}"
 
 
@@ -583,12 +684,20 @@ def count_classes(rec, case: dict, what: str) -> None:
         rec.observe("weight_formats", case["wfmt"])
     if case["nan_cells"]:
         rec.count("targets_with_nan_compared")
+    if case["noise"]:
+        rec.count("stochastic_pipeline_compared")
+        if case["ntar"] >= 2:
+            rec.count("stochastic_pipeline_2_or_more_targets_compared")
+    elif case["pseed"] is not None:
+        rec.count("seeded_deterministic_pipeline_compared")
 
 
 def fitness_mismatch(rec, case: dict, data: dict, got: float, want: float, p, q, what: str, extra: str, index) -> None:
     """Classify a fitness that differs from the oracle by how it differs."""
     got = float(got)
     mech = f"C11:fitness:{what}:{ro_name(case)}:weights-{case['wk']}:mismatch"
+    if case["noise"]:
+        mech = f"C11:fitness:{what}:{ro_name(case)}:weights-{case['wk']}:seeded-stochastic-pipeline:mismatch"
     if case["wk"] != "none":
         unweighted = oracle_fitness(case, data, p, q, weighted=False)
         if close(got, unweighted) and not close(want, unweighted):
@@ -600,8 +709,9 @@ def fitness_mismatch(rec, case: dict, data: dict, got: float, want: float, p, q,
 
 def signature(case: dict) -> list:
     return [case[k] for k in ("kind", "rows", "cols", "trows", "tcols", "multi", "times", "ntar", "ks", "cls", "rfr",
-                              "tfr", "fn", "free", "wk", "result_type", "fmt", "inherited")] + \
-           [[(p["name"], p["log"], p["shared"]) for p in case["layout"]]]
+                              "tfr", "fn", "free", "wk", "result_type", "fmt", "inherited", "noise")] + \
+           [[(p["name"], p["log"], p["shared"]) for p in case["layout"]], case["pseed"] is not None,
+            sorted((case.get("algo") or {}).items())]
 
 
 # =============================================================================== (a) + (e): direct cases
@@ -672,6 +782,10 @@ def run_direct(rec, index, case: dict, rng, n_eval: int) -> None:
         return
     if is_shifted(case) or time_shifted(case):
         rec.count("valid_shifted_ranges_accepted")
+    data["noise"] = resimulated_noise(rec, case)
+    if data["noise"] is False:
+        rec.case(signature(case), False)
+        return
     # ---- ... and every candidate's fitness is the declared figure of merit
     for x in decisions:
         log_reset()
@@ -739,6 +853,7 @@ def check_champions(rec, case: dict, data: dict, tree, index) -> np.ndarray | No
         # (d) never worse than the one reported before
         for e in range(1, fit.shape[1]):
             rec.count("monotone_pairs_checked")
+            rec.count(f"monotone_pairs_checked_{case['algo']['type']}")
             if fit[i, e] < fit[i, e - 1]:
                 rec.count("champion_improved_between_evolutions")
             if fit[i, e] > fit[i, e - 1] + 1e-12 * abs(fit[i, e - 1]):
@@ -779,7 +894,7 @@ def check_nodes(rec, case: dict, data: dict, tree, par: np.ndarray, index) -> No
         pp = case["p0"] if p is None else p[0]
         qq = case["q0"] if q is None else q
         for k in range(n_proc):
-            expected[i, k] = oracle_sim(case, pp, qq, case["ks"][k])
+            expected[i, k] = oracle_sim(case, pp, qq, case["ks"][k], data.get("noise"))
     for bucket in BUCKETS:
         for path, restrict, counter in ((f"/simulated/{bucket}", True, "simulated_cells_compared"),
                                         (f"/full_size/simulated_{bucket}", False, "full_size_cells_compared")):
@@ -858,7 +973,8 @@ def run_calib(rec, index, case: dict) -> None:
     data = materialise(case, rec.tmp, f"c{index}")
     rec.count("calibration_cases")
     rec.observe("range_classes_calib", f"{ro_name(case)}:{case['cls']}")
-    rec.observe("algorithms", case["algo"]["type"])
+    rec.observe("algorithms", case["algo"]["type"] + (":{nlopt_solver}:select-{nlopt_selection}:replace-{replacement}"
+                                                      .format(**case["algo"]) if case["algo"]["type"] == "nlopt" else ""))
     log_reset()
     tree, exc = None, None
     try:
@@ -884,6 +1000,11 @@ def run_calib(rec, index, case: dict) -> None:
         if calls == 0:
             alarm(rec, refused_key(case), f"equal-extent in-bounds range pair result={case['rfr']} target={case['tfr']} "
                                           f"refused by run_mode: {short_exc(exc)}", case, index)
+        elif case["algo"]["type"] == "nlopt" and "pagmo" in str(exc):
+            # NLopt solvers may end an evolution on a point that pygmo refuses as the next initial guess
+            # (one ulp beyond a boundary): a refusal of the library, outside the statement
+            rec.count("nlopt_runs_refused_by_pygmo")
+            rec.observe("refused", f"nlopt:{case['algo']['nlopt_solver']}: {short_exc(exc)[:120]}")
         else:
             mech = "C11:calibration:valid-configuration:run-raised"
             if case["fn"] == "reduced_chi_squared" and case["wk"] == "vector" and not region_is_full_detector(case):
@@ -895,6 +1016,11 @@ def run_calib(rec, index, case: dict) -> None:
         rec.case(signature(case), True, sample=case)
         return
     rec.count("calibrations_finished")
+    rec.count(f"algo_{case['algo']['type']}_finished")
+    data["noise"] = resimulated_noise(rec, case)
+    if data["noise"] is False:
+        rec.case(signature(case), False)
+        return
     if len(case["layout"]) == 1 and case["layout"][0]["name"] == "p":
         rec.count("single_parameter_calibrations")
     if is_shifted(case) or time_shifted(case):
@@ -938,7 +1064,7 @@ def finalize(counters, sets, tier):
     if not {"npy", "fits", "txt"} <= fmts:
         out.append(f"target formats compared: {sorted(fmts)} (npy, fits, txt expected)")
     rejected = set(sets.get("invalid_classes_rejected", []))
-    for need in ("single-readout:unequal", "single-readout:oob_target"):
+    for need in ("single-readout:unequal", "single-readout:oob_target", "single-readout:oob_both"):
         if need not in rejected:
             out.append(f"no rejected range pair of class {need} was observed")
     return out
